@@ -334,6 +334,7 @@ structure ImplObs where
   evs : List Ev
   grid : Option (Array (Array Cell))
   xtok : Option String := none            -- mode 4: the `X=` token (hex bytes)
+  wtok : Option String := none            -- C02: the `W=` token (the buffer cells every handler invocation changed)
 
 def hexVal (ch : Char) : Nat :=
   if '0' ≤ ch ∧ ch ≤ '9' then ch.toNat - 48 else if 'a' ≤ ch ∧ ch ≤ 'f' then ch.toNat - 87 else 0
@@ -383,9 +384,28 @@ def parseImpl (line : String) : Option ImplObs :=
              evs := parseEvents (e.drop 2).toString, grid := parseGrid (g.drop 2).toString, xtok := x }
     else none
   match toks line with
-  | [r, t, e, g] => core r t e g none
-  | [r, t, e, g, x] => if x.startsWith "X=" then core r t e g (some (x.drop 2).toString) else none
+  | r :: t :: e :: g :: rest =>
+    if rest.all (fun x => x.startsWith "X=" ∨ x.startsWith "W=") ∧ rest.length ≤ 2 then
+      (core r t e g ((rest.find? (·.startsWith "X=")).map fun x => (x.drop 2).toString)).map fun o =>
+        { o with wtok := (rest.find? (·.startsWith "W=")).map fun x => (x.drop 2).toString }
+    else none
   | _ => none
+
+/-- The `W=` token: per handler invocation the window and the runs `(line, col, len)` of buffer cells it changed. -/
+def parseWrites (s : String) : Option (List (Nat × List (Int × Int × Int))) :=
+  if s = "-" then some [] else
+  (s.splitOn ";").mapM fun (e : String) =>
+    match e.splitOn "@" with
+    | [id, runs] =>
+      match id.toNat? with
+      | none => none
+      | some id =>
+        if runs = "-" then some (id, [])
+        else ((runs.splitOn ",").mapM fun (r : String) =>
+          match ints? (r.splitOn ".") with
+          | some [l, c, n] => some (l, c, n)
+          | _ => none).map fun rs => (id, rs)
+    | _ => none
 
 /-! ### the xterm configuration: bytes → screen -/
 
@@ -477,6 +497,32 @@ def specC02 (d : DSt) (o : ImplObs) : String :=
               else none
         bad.getD ""
       | _, _ => ""
+
+/-- C02, the clause itself, on what every handler invocation changed in the render buffer (`W=`: read from the raw state
+    of the buffer before and after the handler ran): "whatever an expose handler draws, the only cells that can change are
+    cells inside the damaged region that belong to that window in the composition".  `dmg`: the abstract damage region. -/
+def specWriters (dmg : List Rect) (o : ImplObs) : String :=
+  match o.wtok with
+  | none => "no W= token in the observation of a flush (C02)"
+  | some w =>
+    match parseWrites w with
+    | none => "malformed W= token"
+    | some ws =>
+      let t := o.tree
+      if ws.map (·.1) ≠ o.evs.map (·.1) then "the W= token does not list the handler invocations of the E= token"
+      else
+        let damaged := (o.evs.filter (·.1 = 0)).map (·.2)
+        let bad := ws.findSome? fun (id, runs) =>
+          runs.findSome? fun (l, c0, n) =>
+            (List.range n.toNat).findSome? fun (j : Nat) =>
+              let c := c0 + (j : Int)
+              let own := (WinSpec.ownerAt t l c).map (·.1)
+              if own ≠ some id then
+                some s!"the expose handler of window {id} changed render-buffer cell ({l},{c}), which belongs to {match own with | some x => toString x | none => "nobody"}"
+              else if !(damaged.any (·.memb l c)) ∨ !(dmg.any (·.memb l c)) then
+                some s!"the expose handler of window {id} changed render-buffer cell ({l},{c}) outside the damaged region"
+              else none
+        bad.getD ""
 
 /-- Does the region `reg` of window `id` (in its own coordinates) stick out of some ancestor's bounds? -/
 def sticksOut (t : Tree) : Nat → Id → Rect → Bool
@@ -941,7 +987,11 @@ def step (d : DSt) (ts : List String) (impl : String) : DSt × String × String 
   let o : Option ImplObs := match o, vt' with
     | some o, some vt => if xm then some { o with grid := some (gridOfVT vt) } else some o
     | o, _ => o
-  let m := if xm ∧ m ≠ "bad-op" ∧ !(m.startsWith "ub:") then m ++ " X=" ++ ((o.bind (·.xtok)).getD "?") else m
+  -- what the model does not predict is repeated from the implementation's observation: the cells every handler changed
+  -- (C02, at a flush) and the bytes sent to the terminal (xterm configuration)
+  let plain := m ≠ "bad-op" ∧ !(m.startsWith "ub:")
+  let m := if d'.prop = 2 ∧ isFlush ∧ plain then m ++ " W=" ++ ((o.bind (·.wtok)).getD "?") else m
+  let m := if xm ∧ plain then m ++ " X=" ++ ((o.bind (·.xtok)).getD "?") else m
   let sv : String :=
     match o with
     | none =>
@@ -960,7 +1010,8 @@ def step (d : DSt) (ts : List String) (impl : String) : DSt × String × String 
             if m ≠ "" ∧ d'.unclipped then m ++ " [the history scrolled a region extending beyond an ancestor's bounds]" else m
           else
             let m := specC02 d o
-            if m ≠ "" then m else specDamage d (flushDamage pre d.zReqs ++ d.dmg) o
+            let m := if m ≠ "" then m else specDamage d (flushDamage pre d.zReqs ++ d.dmg) o
+            if m ≠ "" then m else specWriters (flushDamage pre d.zReqs ++ d.dmg) o
         let own := if own = "" ∧ xm then (match o.grid with | some g => specBytes d'.scr g | none => "") else own
         if own ≠ "" then own else specZOrder d pre o
   -- remember the implementation's grid for the next flush
